@@ -82,6 +82,12 @@ func main() {
 		runC02(res)
 	case "c03":
 		runC03(res)
+	case "c09":
+		runC09(res)
+	case "c16":
+		runC16(res)
+	case "c14":
+		runC14(res)
 	default:
 		fmt.Fprintln(os.Stderr, "unknown mode", *mode)
 		os.Exit(2)
